@@ -516,25 +516,25 @@ NOTE_NUM = ('Holds on the executions described in the evidence file, nothing mor
             'gcc 12 / Eigen 3.4, x86-64 SSE2 arithmetic without FMA contraction. Tolerances are fixed in DESIGN.md section 4 (>=10x the worst error observed on the repaired tree).')
 MANIFEST_META = {
     'C01': dict(engine='ref-model differential monitor', design_ref='DESIGN.md 4/C01', technique='differential runtime monitor vs independent long-double model under ASan/UBSan',
-                text='Every compose/inverse/identity/act/transform result of ~2e4 (quick) to 1e6 (thorough) stratified operand triples per group is compared with the product / inverse / action of reference matrices built from the coefficient vectors; held-on-observed-executions assurance, which is what a pure numerical function over a continuous domain admits. The exact clause is observed with == over an exact-rational scalar (rational unit quaternions of both hemispheres) that throws on any transcendental or rounding step.',
+                text='Every compose/inverse/identity/act/transform result of ~2e4 (quick) to 1e6 (thorough) stratified operand triples per group is compared with the product / inverse / action of reference matrices built from the coefficient vectors; held-on-observed-executions assurance, which is what a pure numerical function over a continuous domain admits. The exact clause is observed with == over an exact-rational scalar (rational unit quaternions of both hemispheres) that throws on any transcendental or rounding step. A few per cent of the double operands carry rotation data off-norm by 0.45 eps (inside the acceptance band) so that the renormalisation branch of compose is exercised in both hemispheres, and 3 per cent are given by exact coefficients (pure quaternions, signed zeros).',
                 note=NOTE_NUM),
     'C02': dict(engine='ref-model differential monitor', design_ref='DESIGN.md 4/C02', technique='differential runtime monitor vs independent long-double matrix exponential under ASan/UBSan',
                 text='t.exp() is compared with a scaling-and-squaring Taylor expm of the reference hat(t) over the full rotation-magnitude axis (0, denormal, every candidate switch-over +-ulp, dense log sweep, near pi, beyond pi) x independent linear magnitude 0..1e6, all groups, double and float; hat and generators are compared exactly.',
                 note=NOTE_NUM),
     'C03': dict(engine='ref-model differential monitor', design_ref='DESIGN.md 4/C03', technique='differential runtime monitor over six element-production routes vs model exp/log',
-                text='X.log() is checked (finite, principal, exp_ref(log X)=X, equal to the model logarithm, log(q)=log(-q), t.exp().log()=t) on elements produced by six routes including both quaternion hemispheres and products of near-pi rotations (angle 2pi-eps), which no unit test generates.',
+                text='X.log() is checked (finite, principal, exp_ref(log X)=X, equal to the model logarithm, log(q)=log(-q), t.exp().log()=t) on elements produced by six routes including both quaternion hemispheres and products of near-pi rotations (angle 2pi-eps), which no unit test generates. A separate route feeds elements given by exact coefficients (w = +0/-0 half turns, signed zeros, 3-4-5 values), and the rotation part of exp(log X) = X is judged on its own at 128 ulp.',
                 note=NOTE_NUM + ' Near pi the tolerance carries the documented conditioning term 16u/(pi-theta).'),
     'C04': dict(engine='ref-model differential monitor', design_ref='DESIGN.md 4/C04', technique='runtime monitor: definitions vs long-double model + bit-exact differential comparison of 60 alias forms (values and Jacobian routing)',
                 text='rplus/lplus/rminus/lminus/between are compared with the compositions they are documented to be, evaluated on the reference model, incl. the round trips (X+t)-X=t and X+(Y-X)=Y up to relative rotation pi-1e-6; every alias (plus/minus, operators, tangent-side forms, the functions.h facade incl. its Jacobian outputs, Map/Map<const> operands) must return bit-identical coefficients to the canonical member on the same operands.',
                 note=NOTE_NUM + ' Bit-identity of forwards is a sound expectation under the baseline FP model (no FMA contraction); measured 0 differences on the unchanged tree.'),
     'C05': dict(engine='ref-model differential monitor', design_ref='DESIGN.md 4/C05', technique='runtime monitor: analytic Jacobians vs 4th-order central differences of the definition on the long-double model',
-                text='Each returned Jacobian of inverse, log, exp, compose, between, rplus, lplus, rminus, lminus, act (w.r.t. every argument) is compared with the derivative of f(X (+) d) (-) f(X) computed on the reference model, at the 1e-6 relative bound the property states; argument rotation and relative rotation are swept independently from 0 to pi-1e-6, translations 0..1e6. A disagreement is judged only if the oracle agrees with itself at h/2 and 2h (otherwise counted as oracle-unresolved).',
+                text='Each returned Jacobian of inverse, log, exp, compose, between, rplus, lplus, rminus, lminus, act (w.r.t. every argument) is compared with the derivative of f(X (+) d) (-) f(X) computed on the reference model, at the 1e-6 relative bound the property states; argument rotation and relative rotation are swept independently from 0 to pi-1e-6, translations 0..1e6. A disagreement is judged only if the oracle agrees with itself at h/2 and 2h (otherwise counted as oracle-unresolved). In a third of the cases the two Jacobians of a two-output operation are requested one at a time; log-type Jacobians carry the allowance min(0.1 u cond(Jr), 10 tol).',
                 note=NOTE_NUM + ' Samples within ~3e-6 of the cut locus with |time*velocity| >= 1e8 can be oracle-unresolved; they are counted in the evidence, not judged.'),
     'C07': dict(engine='ref-model differential monitor', design_ref='DESIGN.md 4/C07', technique='exhaustive enumeration of generator indices + runtime monitor of algebra identities vs typed-in generator tables',
                 text='All generator indices of all groups, R1..R9 and 21 bundle layouts are enumerated and compared entry-wise (exact) with the documented tables; out-of-range indices must raise invalid_argument; hat/vee/bracket/inner/InnerWeights identities are checked on random tangents, exactly on small-integer tangents (where floating point is exact), within a few ulp otherwise.',
                 note=NOTE_NUM + ' The exact-arithmetic clause is observed twice: on integer-valued tangents in double (all operations exact) and with == over the exact-rational scalar of harness/rational.h (__int128 fractions; overflow = inconclusive, counted).'),
     'C06': dict(engine='ref-model differential monitor', design_ref='DESIGN.md 4/C06', technique='runtime monitor vs series-defined Jr (augmented expm of ad), model Adj/ad',
-                text='rjac/ljac are compared with sum_k (-ad)^k/(k+1)! evaluated as a block of expm([[-ad,I],[0,0]]) (no small-angle case analysis in the oracle), the inverses with the model inverse and as products, Adj/adj/smallAdj with their definitions on the reference matrices, at the 1e-6 relative bound the property states, densely in (sqrt(eps),1e-2) where the defects were.',
+                text='rjac/ljac are compared with sum_k (-ad)^k/(k+1)! evaluated as a block of expm([[-ad,I],[0,0]]) (no small-angle case analysis in the oracle), the inverses with the model inverse and as products, Adj/adj/smallAdj with their definitions on the reference matrices, at the 1e-6 relative bound the property states, densely in (sqrt(eps),1e-2) where the defects were. Every 8th tangent has its rotation angle in (pi, 4pi) away from the multiples of 2pi.',
                 note=NOTE_NUM),
     'C08': dict(engine='history monitor', design_ref='DESIGN.md 4/C08', technique='online invariant monitor over long random and adversarial operation histories (ASan+assertions build and NDEBUG -O2 build)',
                 text='After every step of histories of 6e4..2e7 steps per (group, schedule) every live element is checked against the library\'s own acceptance threshold recomputed in long double; the bound is enforced at each step, so it is independent of the history length by construction, and 1e5-step window maxima are recorded to show there is no trend; with assertions on, any escaping exception is a violation.',
@@ -543,10 +543,10 @@ MANIFEST_META = {
                 text='Every Jacobian-returning operation is called with every subset of its optional outputs on the same operands; values and Jacobians must be bit-identical across subsets, an output bound to an interior block of a NaN-canary matrix must write exactly that block, operands are compared bit-wise before/after, 13 aliased assignment forms must equal the unaliased computation, and fixed golden cases must produce one digest whether they are the first library activity of a process or follow thousands of other calls.',
                 note='Bit-identity is a sound expectation for pure forwards under the baseline FP model; held on the operand sets and call orders executed. ' + NOTE_NUM),
     'C10': dict(engine='bit-exact differential monitor', design_ref='DESIGN.md 4/C10', technique='bit-exact differential runtime monitor over operand storage kinds with guard zones (NaN canaries) and ASan red-zones on exactly-sized blocks',
-                text='About 45 operations are evaluated for 9 combinations of {owning, Map, Map<const>} operand kinds and must reproduce the owning computation bit for bit; 25 mutating members executed through mutable views must change exactly the viewed RepSize/DoF scalars: buffers are exactly-sized heap blocks (ASan red-zones), misaligned variants, or embedded between canaries compared bit-wise after every call.',
+                text='About 45 operations are evaluated for 9 combinations of {owning, Map, Map<const>} operand kinds and must reproduce the owning computation bit for bit; 25 mutating members executed through mutable views must change exactly the viewed RepSize/DoF scalars: buffers are exactly-sized heap blocks (ASan red-zones), misaligned variants, or embedded between canaries compared bit-wise after every call. The whole assignment family {owning, Map} x {owning, Map, Map<const>, Eigen} x {lvalue, rvalue} is judged on raw buffer bytes; views must view (data() is the user pointer, const views created before a write show the new coefficients); sub-view to sub-view assignment through asSO3() and element<i>().',
                 note='ASan red-zones catch adjacent overruns only; intra-buffer errors are caught by the canaries and by value comparison. ' + NOTE_NUM),
     'C11': dict(engine='bit-exact differential monitor', design_ref='DESIGN.md 4/C11', technique='bit-exact differential runtime monitor: bundle operation vs per-element operation at independently computed offsets; NaN-prefilled Jacobians',
-                text='For 21 layouts each bundle operation (exp, log, compose, inverse, between, rplus, lplus, rminus, lminus, act with both Jacobians, adj, hat, vee, rjac/ljac and inverses, smallAdj, bracket, generators, inner weights, Random, transform) is compared bit for bit with the same operation on each standalone element placed at the offset given by the monitor\'s own prefix sums; Jacobians pre-filled with NaN must come back block-diagonal with exact zeros elsewhere; element<i>() must alias exactly the i-th coefficients.',
+                text='For 21 layouts each bundle operation (exp, log, compose, inverse, between, rplus, lplus, rminus, lminus, act with both Jacobians, adj, hat, vee, rjac/ljac and inverses, smallAdj, bracket, generators, inner weights, Random, transform) is compared bit for bit with the same operation on each standalone element placed at the offset given by the monitor\'s own prefix sums; Jacobians pre-filled with NaN must come back block-diagonal with exact zeros elsewhere; element<i>() must alias exactly the i-th coefficients. Each Jacobian is also requested alone; random bundle tangents must have the support of the element-wise draws.',
                 note='Layouts are a fixed list covering every element group in first/middle/last position, repeats and single elements; inputs are random draws per layout. ' + NOTE_NUM),
     'C12': dict(engine='dual-number monitor', design_ref='DESIGN.md 4/C12', technique='runtime monitor over a forward-mode dual-number scalar: primal vs double, dual parts vs analytic Jacobians, functors through raw pointers',
                 text='manif is instantiated over a ceres::Jet stand-in (manif/ceres headers compiled unchanged); for inverse, log, exp, rplus, lplus, compose, between, rminus, lminus and act the primal part must equal the double result (1e-11 of the operand scale, which admits the branch discontinuity exactly at a switch-over) and the dual parts of f(X (+) d) (-) f(X) at d=0 must reproduce the analytic Jacobian (1e-6 relative) for argument rotations at 0, below and just above the small-angle switch, generic and near pi; the manifold / local-parameterisation / objective / constraint functors are driven through raw double* and Jet* arrays and compared in value and derivative.',
@@ -570,6 +570,6 @@ MANIFEST_META = {
                 text='Reflexivity of isApprox and == is observed on elements with coordinates up to 1e9 and on the pair (q,-q); Y = X (+) d with ||d||_inf = eps/100 must compare equal and with 100 eps unequal, in both argument orders, for eps from 1e-12 to 1e-2 wherever the difference is resolvable in the scalar; tangent isApprox is checked as an absolute test against zero and a relative test otherwise for norms 1e-12..1e9.',
                 note=NOTE_NUM + ' Pairs whose tangent distance is not resolvable in the scalar type (eps < 1e4*u*|coordinates|) are counted, not judged.'),
     'C19': dict(engine='api-matrix builder', design_ref='DESIGN.md 4/C19', technique='exhaustive generated API matrix: each cell compiled, executed under ASan/UBSan, digest compared bit-wise with the owning instantiation',
-                text='The finite matrix {126 documented entries} x {owning, Map, Map<const>} x {12 (quick) / 17 (thorough) groups incl. bundles} x {float,double} is enumerated completely; a cell that cannot be instantiated is a violation attributed through the compiler instantiation trace; every other cell is executed and must reproduce the owning cell bit for bit.',
+                text='The finite matrix {126 documented entries} x {owning, Map, Map<const>} x {12 (quick) / 17 (thorough) groups incl. bundles} x {float,double} is enumerated completely; a cell that cannot be instantiated is a violation attributed through the compiler instantiation trace; every other cell is executed and must reproduce the owning cell bit for bit. Operands are also seen through LieGroupBase<D>& / TangentBase<D>& references; static constants are odr-used (link errors are attributed to cells); every alias and free function is compared with its canonical member (values and Jacobians).',
                 note='The instantiation half is observed at build time (the one place where the deciding event is not an execution, see DESIGN.md 4/C19). g++ 12 builds and runs the cells; clang++ 14 re-checks every TU with -fsyntax-only.'),
 }
